@@ -68,6 +68,7 @@ class OpLog:
     file_scripts: list[str] = field(default_factory=list)
     pth: list[str] = field(default_factory=list)
     tarinfos_in: list[tuple[str, int, int, int, str, str, float]] = field(default_factory=list)  # sdist: before clean_tarinfo
+    sdist_to_add: list[tuple[str, str]] = field(default_factory=list)   # sdist: (abs path, relative_to_source_root) in set-iteration order
 
 
 @contextlib.contextmanager
@@ -80,6 +81,7 @@ def logged() -> Iterator[OpLog]:
     o_add, o_write, o_record = WheelBuilder._add_file, WheelBuilder._write_to_zip, WheelBuilder._write_record
     o_find, o_copy, o_scripts = WheelBuilder.find_files_to_add, WheelBuilder._copy_dist_info, WheelBuilder._copy_file_scripts
     o_clean = SdistBuilder.clean_tarinfo
+    o_sfind = SdistBuilder.find_files_to_add
     state = {"in_record": False}
 
     def add_file(self: Any, wheel: Any, full_path: Path, rel_path: Path) -> None:
@@ -115,6 +117,12 @@ def logged() -> Iterator[OpLog]:
                       for f in res]
         return res
 
+    def sdist_find_files_to_add(self: Any, exclude_build: bool = False) -> Any:
+        res = o_sfind(self, exclude_build)
+        log.project_root = str(self._path)
+        log.sdist_to_add = [(str(f.path), f.relative_to_source_root().as_posix()) for f in res]
+        return res
+
     def copy_dist_info(self: Any, wheel: Any, source: Path) -> None:
         listing = [f for f in source.glob("**/*")]
         log.dist_info_listing = [f.relative_to(source).as_posix() for f in listing if f.is_file()]
@@ -138,6 +146,7 @@ def logged() -> Iterator[OpLog]:
     WheelBuilder._copy_dist_info = copy_dist_info  # type: ignore[method-assign]
     WheelBuilder._copy_file_scripts = copy_file_scripts  # type: ignore[method-assign]
     SdistBuilder.clean_tarinfo = clean_tarinfo  # type: ignore[method-assign]
+    SdistBuilder.find_files_to_add = sdist_find_files_to_add  # type: ignore[method-assign]
     try:
         yield log
     finally:
@@ -148,6 +157,7 @@ def logged() -> Iterator[OpLog]:
         WheelBuilder._copy_dist_info = o_copy  # type: ignore[method-assign]
         WheelBuilder._copy_file_scripts = o_scripts  # type: ignore[method-assign]
         SdistBuilder.clean_tarinfo = o_clean  # type: ignore[method-assign]
+        SdistBuilder.find_files_to_add = o_sfind  # type: ignore[method-assign]
 
 
 # --------------------------------------------------------------------------------------
@@ -400,6 +410,12 @@ def materialise(project: Project, order: list[int] | None = None, mtimes: dict[s
     root.mkdir(parents=True)
     project.write(root, order=order, mtimes=mtimes)
     return root
+
+
+def zip_dos_time(dt: Any) -> tuple[int, ...]:
+    """what a zip directory entry can store of a date-time: MS-DOS time has a 2-second resolution (encoder trait)"""
+    t = tuple(int(x) for x in dt)
+    return t[:5] + (t[5] // 2 * 2,)
 
 
 def file_mode_class(mode: int) -> int:
